@@ -133,3 +133,19 @@ pub fn matches(args: &[String]) -> i32 {
     .unwrap();
     0
 }
+
+// lsm <base> <new>: what the suffix-array matcher answers at every scan position of <new>
+// (the oracle table of the model's scan loop), one "start len" per line
+pub fn lsm(args: &[String]) -> i32 {
+    use sacabase::StringIndex;
+    let old = std::fs::read(&args[0]).unwrap();
+    let new = std::fs::read(&args[1]).unwrap();
+    let sa = sacapart::PartitionedSuffixArray::new(&old[..], 1, divsufsort::sort);
+    let mut out = String::new();
+    for sc in 0..new.len() {
+        let r = sa.longest_substring_match(&new[sc..]);
+        out.push_str(&format!("{}.{}\n", r.start, r.len));
+    }
+    print!("{}", out);
+    0
+}
